@@ -308,7 +308,7 @@ func runConc(sc concScen, ch *engine.Chooser) engine.Result {
 			var b browser
 			absorbStart(t.rec, &b)
 			loc, _ := url.Parse(t.rec.Header().Get("Location"))
-			if t.rec.Code != http.StatusFound || loc == nil || len(t.unauth) > 0 {
+			if t.rec.Code < 300 || t.rec.Code >= 400 || loc == nil || len(t.unauth) > 0 {
 				return bad("refused", fmt.Sprintf("status %d unauthorized=%v", t.rec.Code, t.unauth))
 			}
 			q := loc.Query()
